@@ -762,4 +762,22 @@ def deleteBatchConfirmsBy (keyOf : ConfRec → Nat) (st : ConfStore) (nonce : Na
 /-- the code that exists: the key is derived from the orchestrator, like the write -/
 def deleteBatchConfirms (st : ConfStore) (nonce : Nat) : ConfStore := deleteBatchConfirmsBy (·.val) st nonce
 
+/-! ### what an offer carries (C14: "offered … only once its gas estimate is elected", with the fees of the formula) -/
+
+/-- the offered page of validator `v` together with what each offered message carries: elected gas
+    estimate and attached fees -/
+def offeredCarrying (q : List Item) (v : Nat) : List (Nat × Nat × Option (Nat × Nat × Nat)) :=
+  (offeredPage q v).filterMap fun id => (getItem q id).map fun it => (it.id, it.elected, it.fees)
+
+/-- NOT the code that exists: a `mul` closure that range-checks the truncated quotient first and rounds up
+    afterwards on the `uint64` (the increment wraps).  Used only by the negation witness
+    `narrow_before_rounding_breaks_formula` in Props/C14.lean: it shows that the fee theorems are sensitive to
+    the order "round, then range-check" exactly on the products in `(2^64 − 1, 2^64)`. -/
+def mulFeeNarrowFirst (m : Int) (v : Nat) : Option Nat :=
+  if m < 0 then none
+  else
+    match toU64 (Int.tdiv (m * (v : Int)) P) with
+    | none => none
+    | some q => some (if Int.tmod (m * (v : Int)) P > 0 then (q + 1) % U64 else q)
+
 end Paloma.Queue
